@@ -5,6 +5,7 @@ import random
 from copy import copy
 from datetime import date
 
+import numpy
 from bitarray import bitarray
 
 
@@ -161,6 +162,18 @@ def encode_hands_out_cached(n: int) -> bitarray:
 
 def encode_copies_cached(n: int) -> bitarray:
     return cached_bits(n).copy()     # pure twin: a private copy
+
+
+class Rows:
+    TABLE = numpy.zeros((4, 8), dtype=int)     # class-level table of precomputed words
+
+
+def encode_hands_out_row(i: int) -> numpy.ndarray:
+    return Rows.TABLE[i]                # a view of the class-level table goes to every caller
+
+
+def encode_copies_row(i: int) -> numpy.ndarray:
+    return Rows.TABLE[i].copy()         # pure twin: a private copy
 
 
 class LazyLength:
